@@ -247,3 +247,22 @@ def extreme(fam, n=2, factors=(1e-120, 1e120)):
         for f in factors:
             out.append(('%s*%g' % (name, f), x * f))
     return out
+
+
+def shaped(N, cplx=False):
+    """Smooth records that vanish at both ends (half-sine, Hann-shaped bump, parabola) and records riding on a large offset: admissible data
+    whose first reflection coefficients are within 1e-3 .. 1e-5 of the unit circle (nearly degenerate, not degenerate)."""
+    n = np.arange(N, dtype=float)
+    out = [('halfsine', np.sin(np.pi * (n + 0.5) / N)), ('hannbump', 0.5 - 0.5 * np.cos(2 * np.pi * (n + 0.5) / N)),
+           ('parabola', (n + 0.5) * (N - 0.5 - n) / float(N * N)), ('offset50', 50.0 + weyl(N, 2)), ('adc1000', np.round(1000.0 + 5.0 * weyl(N, 3)))]
+    if cplx:
+        out = [(nm, v * np.exp(2j * np.pi * 0.07 * n)) for nm, v in out[:3]] + [('coffset60', (60 + 60j) + eta(N, True))]
+    return out
+
+
+def near_noiseless(N, cplx=False):
+    """Tones with noise 83-86 dB down: the prediction-error variance falls to a few 1e-9 of the data power, still above the degeneracy bound."""
+    n = np.arange(N, dtype=float)
+    if cplx:
+        return [('ctone0.1+7e-5', np.exp(2j * np.pi * 0.1 * n + 0.3j) + 7e-5 * eta(N, True)), ('ctone-0.23+5e-5', np.exp(-2j * np.pi * 0.23 * n) + 5e-5 * eta(N, True))]
+    return [('tone0.2+7e-5', np.cos(2 * np.pi * 0.2 * n + 0.3) + 7e-5 * eta(N))]
